@@ -93,10 +93,14 @@ def run(ctx):
     totals = {"traces": 0, "calls": 0, "refused": 0, "distinct_hold_states": 0, "events": 0}
     samples = []
     corrupt = None
+    real_refreshes = 0
     for mode, tcfg, n, length in (("default", "TraceRefreshHold.cfg", ctx.pick(250, 4000), ctx.pick(32, 40)),
-                                  ("explicit", "TraceRefreshHoldExplicit.cfg", ctx.pick(60, 1000), ctx.pick(32, 40))):
+                                  ("explicit", "TraceRefreshHoldExplicit.cfg", ctx.pick(60, 1000), ctx.pick(32, 40)),
+                                  # refreshes through the real snapstate.Update + task runner (link-snap)
+                                  ("realrefresh", "TraceRefreshHold.cfg", ctx.pick(6, 80), 14)):
         out = os.path.join(tdir, "hold_%s.ndjson" % mode)
-        rc, o = goharness.run_test_bin(ctx, tb, "^TestVerifHold$", cwd=cwd, timeout=1200,
+        entry = "^TestVerifHoldReal$" if mode == "realrefresh" else "^TestVerifHold$"
+        rc, o = goharness.run_test_bin(ctx, tb, entry, cwd=cwd, timeout=1800,
                                        env={"VERIF_OUT": out, "VERIF_N": n, "VERIF_LEN": length,
                                             "VERIF_EXPLICIT": "1" if mode == "explicit" else "0"})
         goharness.check_driver(rc, o, "hold driver (%s)" % mode)
@@ -104,6 +108,7 @@ def run(ctx):
         rows = conf.load(out)
         for k in ("traces", "calls", "refused", "distinct_hold_states"):
             totals[k] += st[k]
+        real_refreshes += st.get("real_refreshes", 0)
         totals["events"] += len(rows)
         r = conf.two_pass(ctx, "TraceRefreshHold", tcfg, out, mode, timeout=ctx.pick(900, 3000))
         ctx.log("trace validation %s: %d events, accepted=%s" % (mode, len(rows), r["accepted"]))
@@ -139,7 +144,7 @@ def run(ctx):
             "action_coverage": tlc.coverage_summary(mc),
             "invariants": INVS,
             "traces_validated_against_impl": totals["traces"],
-            "real_calls": totals["calls"], "real_events": totals["events"], "real_refusals": totals["refused"],
+            "real_calls": totals["calls"], "refreshes_through_real_task_runner": real_refreshes, "real_events": totals["events"], "real_refusals": totals["refused"],
             "distinct_real_hold_states": totals["distinct_hold_states"],
             "binding_selfcheck": corrupt,
             "samples": samples,
@@ -150,6 +155,7 @@ def run(ctx):
             "gate-auto-refresh error path (both pass holdDuration=0); explicit durations are bound for the 90-day rule only",
             "a hold episode of g on s is the lifetime of the entry snaps-hold[s][g] (a refusal or --proceed ends it)",
             "system holds requested for a time strictly in the future",
-            "refresh = resetGatingForRefreshed (as doInstall calls it) + LastRefreshTime update (as doLinkSnap does)",
+            "refresh = resetGatingForRefreshed (as doInstall calls it) + LastRefreshTime update (as doLinkSnap does) in the "
+            "fast driver; the realrefresh traces go through snapstate.Update and the real link-snap handler instead",
         ],
         violations=violations, notes=notes)
